@@ -410,7 +410,9 @@ func (w *world) addTxn(p poolTxn, rank int64) (*transaction.Transaction, string)
 	t.Nonce = p.nonce
 	t.TransactionType = p.typ
 	t.TransactionData = p.data
-	t.CreationDate = w.now - common.Timestamp(p.age)
+	// one second apart: the transaction hash covers (creation date, nonce, sender, recipient, value, data) but not the
+	// fee, so two submissions that differ in nothing else would be one pool entry
+	t.CreationDate = w.now - common.Timestamp(p.age) - common.Timestamp(len(w.pool))
 	t.ChainID = genMC.ID
 	if err := t.ComputeProperties(); err != nil {
 		// a contract transaction whose data is not JSON: stored as the client sent it
